@@ -33,14 +33,68 @@ ARG_PAIRS = [      # (name, long argument spec, compact argument spec)
 ]
 
 
+LONGCLS = {"Int": "Int", "String": "String", "Float": "Float", "Symbol": "Symbol"}
+
+
+def generated_pairs(work, stats):
+    """spec/MCNotation.tla: every abstract type with two notations -> extra (name, long, compact) entries"""
+    cases = []
+    r = C.run_tlc(work, "MCNotation", "Notation.cfg", workers=1, timeout=600,
+                  stream=lambda l: cases.append(json.loads(json.loads(l))))
+    if not r.ok:
+        raise C.HarnessError("Notation model failed: %s" % r.violation)
+    stats["states"] += r.distinct
+    stats["transitions"] += r.generated
+    rets, args = [], []
+    for i, c in enumerate(sorted(cases, key=lambda c: json.dumps(c, sort_keys=True))):
+        ms = sorted(c["ms"])
+        tag = "%s_%s" % (c["wrap"], "".join(m[:2].lower() for m in ms))
+        bar = "|".join(ms)
+        if c["pos"] == "ret":
+            if c["wrap"] == "plain":
+                pairs = [(ms if ms != ["Int"] else ["Integer"], bar if len(ms) > 1 else "Int")]
+            elif c["wrap"] == "opt":
+                pairs = [(ms + ["NilClass"], ("?" + bar) if len(ms) == 1 else bar + "|NilClass")]
+                if c["named"]:
+                    pairs.append((ms + ["NilClass"], "Optional" + ms[0]))
+            elif c["wrap"] == "arr":
+                pairs = [([ms[0] + "Array"], "[%s]" % ms[0])]
+            else:
+                continue
+            for k, (lng, cmp_) in enumerate(pairs):
+                rets.append(("g%dr_%s%s" % (i, tag, "n" if k else ""), lng, cmp_))
+        else:
+            if c["wrap"] == "plain":
+                pairs = [({"type": ms if ms != ["Int"] else ["Integer"]}, {"type": bar if len(ms) > 1 else "Int"})]
+            elif c["wrap"] == "default":
+                if len(ms) == 1:
+                    pairs = [({"type": ms, "is_default": True}, {"type": "?" + ms[0]})]
+                    if c["named"]:
+                        pairs.append(({"type": ms, "is_default": True}, {"type": ["Default" + ms[0]]}))
+                else:
+                    pairs = [({"type": ms, "is_default": True}, {"type": bar, "is_default": True})]
+            elif c["wrap"] == "rest":
+                pairs = [({"type": ms, "is_asterisk": True}, {"type": "*" + ms[0]})]
+            elif c["wrap"] == "arr":
+                pairs = [({"type": [ms[0] + "Array"]}, {"type": "[%s]" % ms[0]})]
+            else:
+                continue
+            for k, (lng, cmp_) in enumerate(pairs):
+                args.append(("g%da_%s%s" % (i, tag, "n" if k else ""), lng, cmp_))
+    return rets, args
+
+
+GEN_RET, GEN_ARG = [], []
+
+
 def notation_config(work, which):
     d = work.sub("c21-not%d" % which)
     for f in os.listdir(C.SHIPPED_CFG):
         os.symlink(os.path.join(C.SHIPPED_CFG, f), os.path.join(d, f))
     ms = []
-    for name, lng, cmp_ in RETURN_PAIRS:
+    for name, lng, cmp_ in RETURN_PAIRS + GEN_RET:
         ms.append({"name": name, "arguments": [], "return_type": {"type": lng if which == 0 else cmp_}})
-    for name, lng, cmp_ in ARG_PAIRS:
+    for name, lng, cmp_ in ARG_PAIRS + GEN_ARG:
         ms.append({"name": name, "arguments": [lng if which == 0 else cmp_], "return_type": {"type": ["Int"]}})
     json.dump({"frame": "Builtin", "class": "VfNot", "instance_methods": ms,
                "class_methods": [{"name": "new", "arguments": [], "return_type": {"type": ["VfNot"]}}]},
@@ -50,10 +104,10 @@ def notation_config(work, which):
 
 def notation_program():
     lines = ["n = VfNot.new"]
-    for name, _, _ in RETURN_PAIRS:
+    for name, _, _ in RETURN_PAIRS + GEN_RET:
         lines.append("dbtp n.%s" % name)
-    for name, _, _ in ARG_PAIRS:
-        for arg in ("", "1", "\"s\"", "1.5", "[\"s\"]", "1, 2", "\"a\", \"b\""):
+    for name, _, _ in ARG_PAIRS + GEN_ARG:
+        for arg in ("", "1", "\"s\"", "1.5", ":sym", "[\"s\"]", "[1]", "1, 2", "\"a\", \"b\""):
             lines.append("dbtp n.%s(%s)" % (name, arg))
     return "\n".join(lines) + "\n"
 
@@ -85,6 +139,9 @@ def run(tier, work):
                C.job_files_for_replay({"cfg": b["job"]["cfg"], "files": {"t.rb": text}, "args": ["t.rb"]}),
                detail={"long_out": ra.get("out"), "compact_out": rb.get("out")})
     # return-type and argument notations + rendered signatures
+    gr_, ga_ = generated_pairs(work, stats)
+    GEN_RET[:] = gr_
+    GEN_ARG[:] = ga_
     prog = notation_program()
     outs = {}
     for which in (0, 1):
@@ -115,9 +172,11 @@ def run(tier, work):
                        detail={"long": a[:1500], "compact": b[:1500]})
     v.sample({"return_notation_pairs": RETURN_PAIRS[:3], "argument_notation_pairs": [(n, a, b) for n, a, b in ARG_PAIRS[:3]]})
     cov = {"states": stats["states"], "transitions": stats["transitions"], "traces_validated_against_impl": compared,
-           "binder_cases": len(cases), "notation_methods": len(RETURN_PAIRS) + len(ARG_PAIRS), "exhaustive": True,
-           "rule": "every Binder.tla (declaration, call) case under a long-notation and a compact-notation configuration; 12 methods "
-                   "comparing return / argument notations with 7 argument lists each; --llm-define signatures"}
+           "binder_cases": len(cases), "notation_methods": len(RETURN_PAIRS) + len(ARG_PAIRS) + len(GEN_RET) + len(GEN_ARG), "exhaustive": True,
+           "rule": "every Binder.tla (declaration, call) case under a long-notation and a compact-notation configuration; 12 fixed "
+                   "methods + every abstract type of MCNotation.tla (unions of 1-4 classes, optional, default, rest, array; named "
+                   "OptionalX / DefaultX / XArray) written in both notations, in return and argument position, called with 9 "
+                   "argument lists each; --llm-define signatures"}
     return v.finish("model_checking", cov, assumptions=["compact printer: 'A|B', '?T' (single non-union type), '*T', 'Int'"])
 
 
